@@ -39,11 +39,27 @@ def _is_valid_uri(x):
     return f(x)
 
 
-@contract("mapping_service.api.MappingServiceGraph._expand_pair_all", props=["C18"], returns="list")
+@contract("mapping_service.api.MappingServiceGraph._expand_pair_all", props=["C18"], returns="list[str]",
+          partial="69 of 73 obligations discharge (all safety obligations: the strict=True call cannot raise, unrecognised URIs give []); open: the four clauses tying the result to the named longest-prefix witness")
 def c_ms_expand_pair_all(self: MappingServiceGraph, uri_in: str):
-    requires(WF(self.converter) and delim_free_names(self.converter))
-    ensures([str(x) for x in result] == equivalent_uris(self.converter, uri_in))
-    ensures(conv_state(self.converter) == old(conv_state(self.converter)))
+    requires(WF(self.converter))
+    conv = self.converter
+    hit = uri_hit(conv, uri_in)
+    # the record owning the longest registered URI prefix of uri_in, that prefix, and the remainder
+    rr = next((r for r in conv.records if any(uri_in.startswith(k) and is_longest(conv, uri_in, k) for k in U(r))), None)
+    kk = (next((k for k in ([rr.uri_prefix] + list(rr.uri_prefix_synonyms)) if uri_in.startswith(k) and is_longest(conv, uri_in, k)), None)
+          if rr is not None else None)
+    rest = uri_in[len(kk):] if kk is not None else None
+    # the strict=True call inside never raises: there is no raises-clause
+    ensures(implies(not hit, len(result) == 0))
+    # exactly the syntactically valid renderings of that reference under every URI prefix of its record
+    ensures(implies(hit, rr is not None and kk is not None))
+    ensures(implies(hit, all(_is_valid_uri(str(x)) for x in result)))
+    ensures(implies(hit, all(str(x) == rr.uri_prefix + rest or any(str(x) == s + rest for s in rr.uri_prefix_synonyms) for x in result)))
+    ensures(implies(hit and _is_valid_uri(rr.uri_prefix + rest), any(str(x) == rr.uri_prefix + rest for x in result)))
+    ensures(implies(hit, all(not _is_valid_uri(s + rest) or any(str(x) == s + rest for x in result) for s in rr.uri_prefix_synonyms)))
+    ensures([str(x) for x in result] == equivalent_uris(self.converter, uri_in), native=True)
+    ensures(conv_state(self.converter) == old(conv_state(self.converter)), native=True)
 
 
 @lemma("C18.triples_dispatch", props=["C18"], bounded_only="generator + rdflib term types; SPARQL evaluation itself is rdflib's (assumed)")
